@@ -57,7 +57,6 @@ def run(ctx, spec):
     ctx.metric("oracle_selfcheck:closed_vs_hankel", chk["closed_vs_hankel_exact_constant"])
     if chk["closed_vs_mpmath"] > 1e-10 or chk["closed_vs_hankel_exact_constant"] > 1e-3:
         raise RuntimeError("turbulence reference library disagrees with itself: %r" % chk)
-    ctx.check(aotools.phase_covariance is turb.phase_covariance, "export:phase_covariance", "aotools.phase_covariance is not turb.phase_covariance", None)
 
     for rep in range(spec["reps"]):
         L0 = float(10 ** rng.uniform(-0.3, 4))
